@@ -70,8 +70,9 @@ def gen_batch(rng, ncand=40):
                     continue
                 arr[d] = True
                 ps.append((d, "IFoo", "[%d]" % rng.randint(1, 3), pn))
-            elif r < 0.90:
-                ps.append((d, rng.choice(["uint8", "uint16", "uint32", "uint64", "int32", "float32"]), "[]", pn))
+            elif r < 0.92:
+                # (arrays of one-byte elements are class 0: they travel as the raw slot)
+                ps.append((d, rng.choice(["uint8", "int8", "uint8", "int8", "uint16", "uint32", "uint64", "int32", "float32"]), "[]", pn))
             elif r < 0.94:
                 ps.append((d, rng.choice(structs), "[]", pn))
             elif r < 0.97:
